@@ -313,6 +313,8 @@ def run(ctx):
 
     check_pdb_conect_lookup(ctx, "R12")
     check_sequence_end(ctx, "R7")
+    ctx.rule("R16", "two frames written by the module's dump_many come back from its load_many as two frames, in order, each with its own atoms (evaluated on model molecules)", "a terminator the reader does not expect, a frame separator swallowed or a count carried over: frames are merged, dropped or exchanged")
+    check_two_frame_pairs(ctx, "R16")
 
     # dump side of R6
     ndm = 0
@@ -537,6 +539,98 @@ def check_concat_yields(ctx, rid, short, g, lo1, floop):
         ctx.violate(rid, f"{short}.load_many does not yield the unmodified result of the module's load_one: {bad}", g, floop, construct="yield of load_one")
     else:
         ctx.ok(rid, f"{short}.load_many yields the module's own load_one(lit, ...) unmodified (evaluated on two frames; its arguments are passed through)", f"{g.module.relpath}:{floop.lineno}")
+
+
+def check_two_frame_pairs(ctx, rid):
+    """The small trajectory formats that have both a writer and a reader for many frames (XYZ, SDF, MOL2, PDB): the
+    module's dump_many is interpreted on two model molecules of different size (2 and 3 atoms, different titles and
+    coordinates) into a text sink, its load_many on the printed lines, run to the end."""
+    import numpy as np
+
+    from ..accessors import AccessorEval, Raised, Rec, TextSink
+    from ..symarr import NotSymbolic
+
+    prog = ctx.prog
+    licls = prog.cls("iodata.utils.LineIterator")
+    iocls = prog.cls("iodata.iodata.IOData")
+
+    def molecule(title, atnums, coords, bonds):
+        f0 = {n: None for n in iocls.fields}
+        n = len(atnums)
+        f0.update(title=title, atnums=np.array(atnums), atcoords=np.array(coords, dtype=float), bonds=np.array(bonds), atcharges={"mol2charges": np.zeros(n)})
+        f0["atffparams"] = {"attypes": np.array(["C.3"] * n), "restypes": np.array(["XXX"] * n), "resnums": np.array([-1] * n)}
+        f0["extra"] = {"occupancies": np.ones(n), "bfactors": np.zeros(n), "chainids": np.array(["A"] * n)}
+        return Rec(iocls, **f0)
+
+    frames = [
+        ("FIRST", [8, 1], [[0.5, 1.5, -2.5], [1.25, 0.0, 3.0]], [[0, 1, 1]]),
+        ("SECOND", [6, 7, 1], [[2.0, 2.0, 2.0], [-1.0, -1.0, -1.0], [0.25, 0.75, -0.5]], [[0, 1, 1], [1, 2, 1]]),
+    ]
+    n = 0
+    F = "<function>"
+    # XYZ: the columns are given explicitly (numbers for the element, three coordinates): the default table holds
+    # lambdas over the periodic table, which are C02-R24's clause
+    xyz_cols = [
+        ("atnums", None, (), int, (F, lambda a, k: int(a[0])), (F, lambda a, k: f"{int(a[0]):3d}")),
+        ("atcoords", None, (3,), float, (F, lambda a, k: float(a[0])), (F, lambda a, k: f"{float(a[0]):12.6f}")),
+    ]
+    for short in ("xyz", "sdf", "mol2", "pdb"):
+        dm, lm = prog.format_op(short, "dump_many"), prog.format_op(short, "load_many")
+        if dm is None or lm is None:
+            continue
+        n += 1
+        kw_d = {dm.posparams[2]: xyz_cols} if short == "xyz" and len(dm.posparams) > 2 else {}
+        kw_l = {lm.posparams[1]: xyz_cols} if short == "xyz" and len(lm.posparams) > 1 else {}
+        sink = TextSink()
+        try:
+            ev = AccessorEval(prog, iocls, limit=80000)
+            ev.module = dm.module
+            ev._globals = {("iodata.utils", "angstrom"): 1.0}
+            ev.eager_generators = True
+            ev.run_free(dm, [sink, [molecule(*fr) for fr in frames]], dict(kw_d))
+            text = sink.text
+            lines = [ln + "\n" for ln in text.split("\n")]
+            if lines and lines[-1] == "\n" and text.endswith("\n"):
+                lines.pop()  # the text ends with a newline: no extra empty line after it
+            lit = Rec(licls, filename="F", fh=iter(lines), lineno=0, stack=[])
+            ev = AccessorEval(prog, licls, limit=80000)
+            ev.module = lm.module
+            ev._globals = {("iodata.utils", "angstrom"): 1.0}
+            ev.collect_yields = []
+            ev._in_generator = lm
+            ev.eager_generators = True
+            ev.run_free(lm, [lit], dict(kw_l))
+            got = list(ev.collect_yields)
+        except Raised as exc:
+            ctx.violate(rid, f"{short}: the file dump_many writes for two model molecules makes load_many raise {exc.args[0]}", lm, lm.node, construct=f"{short} two frames: raises")
+            continue
+        except NotSymbolic as exc:
+            raise AnalysisError(f"{short}.dump_many / load_many are outside the evaluation whitelist: {exc}") from exc
+        bad = None
+        if len(got) != 2:
+            bad = f"two frames written, {len(got)} read back"
+        else:
+            for i, (fr, res) in enumerate(zip(frames, got)):
+                title, atnums, coords, _b = fr
+                if not isinstance(res, dict):
+                    bad = f"frame {i + 1} is not a dictionary of fields"
+                    break
+                an = [int(x) for x in np.asarray(res.get("atnums"), dtype=float).ravel()] if res.get("atnums") is not None else None
+                ac = np.asarray(res.get("atcoords"), dtype=float) if res.get("atcoords") is not None else None
+                if an != atnums:
+                    bad = f"frame {i + 1} ({title}, atomic numbers {atnums}) comes back with atomic numbers {an}"
+                    break
+                if ac is None or ac.shape != (len(atnums), 3) or np.abs(ac - np.array(coords)).max() > 1e-3:
+                    bad = f"frame {i + 1} ({title}) comes back with coordinates {None if ac is None else ac.tolist()}"
+                    break
+                if str(res.get("title", "")).strip() != title:
+                    bad = f"frame {i + 1} comes back with the title {res.get('title')!r} instead of {title!r}"
+                    break
+        if bad:
+            ctx.violate(rid, f"{short}: {bad}", dm, dm.node, construct=f"{short} two frames: {bad}"[:170])
+        else:
+            ctx.ok(rid, f"{short}: a 2-atom and a 3-atom molecule written by dump_many come back from load_many as two frames in order, each with its own atoms, coordinates and title", f"{dm.module.relpath}:{dm.lineno}")
+    ctx.floor(rid, n, 4, "formats with dump_many and load_many")
 
 
 def frame_parser(lo):
